@@ -7,7 +7,7 @@ from ..lib import Toks, call_impl
 
 PROP = "C02"
 RULE = ("generated PSM tables (20-400 rows, spectra with 1-6 PSMs, spectrum keys of 1-4 columns, 1-3 jointly modelled "
-        "files, tsv/Parquet) through the real read_pin + brew with folds 2-6, subset_max_train absent/small/large, "
+        "files, tsv/Parquet) through the real read_pin + brew with folds 2-6 and 10-13, subset_max_train absent/small/large, "
         "max_workers 1-8, prediction/train-read chunk sizes from 1 row to larger than the file, several seeds; "
         "observed per fold model: training row ids (scaler.fit_transform), scored row ids (scaler.transform), "
         "model.fold, returned scores; compared with the extracted model's fold partition, complements / sub-sampling "
@@ -28,10 +28,10 @@ def gen(ctx):
     for k in range(n_cases):
         nfiles = rng.choice([1, 1, 1, 2, 3])
         nkey = rng.choice([1, 2, 2, 3, 4])
-        folds = rng.randint(2, 6)
+        folds = rng.choice([2, 3, 4, 5, 6, 2, 3, 4, 5, 6, 10, 11, 12, 13])     # >= 10: fold numbers of two digits
         files = []
         for j in range(nfiles):
-            n = rng.randint(20, 400 if ctx.thorough else 160)
+            n = rng.randint(20 if folds < 10 else 90, 400 if ctx.thorough else 160)
             files.append(brewlib.gen_file(rng, n, nkey, file_idx=j, mult=(1, rng.choice([1, 3, 6])),
                                           label_enc=rng.choice(["pm1", "01", "bool"])))
         ntot = sum(len(f["targets"]) for f in files)
